@@ -90,6 +90,10 @@ hwloc_internal_cpukinds_restrict(hwloc_topology_t topology)
       memmove(kind, kind+1, (topology->nr_cpukinds - i - 1)*sizeof(*kind));
       i--;
       topology->nr_cpukinds--;
+      /* the vacated slot still holds a copy of the last kind (or the freed infos of the removed one),
+       * clear it since registering new kinds assumes that unused slots are zeroed.
+       */
+      memset(&topology->cpukinds[topology->nr_cpukinds], 0, sizeof(*kind));
       removed = 1;
     }
   }
